@@ -396,6 +396,10 @@ def cases(tier, seed):
     for i in range(len(c11.SIGMA_DOC)):
         for j in range(len(c11.SIGMA_DOC)):
             yield dict(kind="doc_block", prefix=[i, j], maxlen=n)
+    # argument sections built from whole-line units (the C11 family): entries without description or type, body-less header-like lines, continuation lines
+    for style in c11.UNITS:
+        for i in range(len(c11.UNITS[style][1])):
+            yield dict(kind="unit_block", style=style, first=i, maxlen=3 if tier == "quick" else 4)
     gd = list(grammar_docstrings()) + list(return_layout_docstrings()) + list(param_layout_docstrings())
     for lo in range(0, len(gd), 50):
         yield dict(kind="grammar_block", lo=lo, hi=lo + 50)
@@ -435,7 +439,7 @@ def run(case):
             report("docstring", ir, case, source="grammar", style=case["style"])
         except Exception:
             outcomes.add("raises")
-    elif case["kind"] in ("doc_block", "doc_string"):
+    elif case["kind"] in ("doc_block", "doc_string", "unit_block"):
         for s in c11._doc_strings(case):
             n += 1
             for edd in (True, False):
@@ -446,7 +450,7 @@ def run(case):
                     outcomes.add("raises")
                     continue
                 outcomes.add("returns")
-                report("docstring", ir, dict(kind="doc_string", string=s), source="tokens")
+                report("docstring", ir, dict(kind="doc_string", string=s), source="units" if case["kind"] == "unit_block" else "tokens")
     elif case["kind"] == "grammar_block":
         for key, text in (list(grammar_docstrings()) + list(return_layout_docstrings()) + list(param_layout_docstrings()))[case["lo"]: case["hi"]]:
             n += 1
